@@ -245,9 +245,14 @@ theorem lineStep_ok (h : Hdr) (st : BSt) (ln : Nat) (orig : Str) (hinv : BInv st
   unfold lineStep
   exact lineBody_ok h _ ln _ orig _ hinv
 
+theorem lineStepAt_ok (h : Hdr) (st : BSt) (ln base : Nat) (orig line : Str) (hinv : BInv st) :
+    ∃ st', lineStepAt h st ln base orig line = .ok st' ∧ BInv st' := by
+  unfold lineStepAt
+  exact lineBody_ok h _ ln _ orig _ hinv
+
 theorem lineLoop_ok (h : Hdr) : ∀ (ls : List Str) (ln : Nat) (st : BSt), BInv st →
-    ∃ st', lineLoop h ls ln st = .ok st'
-  | [], _, st, _ => ⟨st, rfl⟩
+    ∃ st', lineLoop h ls ln st = .ok st' ∧ BInv st'
+  | [], _, st, hinv => ⟨st, rfl, hinv⟩
   | l :: ls, ln, st, hinv => by
     obtain ⟨st1, h1, hi1⟩ := lineStep_ok h st (ln + 1) l hinv
     simp only [lineLoop, h1]
@@ -305,8 +310,16 @@ theorem parseBlock_ok (comment : Str) (lineno : Nat) : ∃ r, parseBlock comment
   | none => exact ⟨_, rfl⟩
   | some o =>
     simp only []
-    obtain ⟨st, hst⟩ := lineLoop_ok o.hdr o.lines lineno _ (BInv_init d)
+    obtain ⟨st, hst, hinv⟩ := lineLoop_ok o.hdr o.lines lineno _ (BInv_init d)
     rw [hst]
-    exact ⟨_, rfl⟩
+    simp only []
+    cases he : o.endText with
+    | none => exact ⟨_, rfl⟩
+    | some t =>
+      obtain ⟨text, src, off⟩ := t
+      simp only []
+      obtain ⟨st', hs', _⟩ := lineStepAt_ok o.hdr st (lineno + o.lines.length + 1) off src text hinv
+      rw [hs']
+      exact ⟨_, rfl⟩
 
 end GIVerif.AnnParse
